@@ -169,6 +169,11 @@ func (m *protoMon) step(w *world, ev event, outs []outMsg) (string, string) {
 			return "", ""
 		}
 	case "C06":
+		if pe.Local == "silence" && !m.everLogged && len(outs) > 0 {
+			// nobody has logged on on this connection yet (Logons so far were refused or damaged): a session that
+			// is waiting for a Logon has no timers and says nothing by itself
+			return "not-logged-on-session-speaks-by-itself", det("%d message(s) during 35 s of silence before any successful logon", len(outs))
+		}
 		if pe.Local == "silence" && before == 'L' && m.state == 'L' && countType(outs, "0")+countType(outs, "1") == 0 {
 			// 35 s without traffic on a logged-on session (intervals 5 and 30 s): its timers must have spoken
 			return "logged-on-session-went-quiet", det("neither a Heartbeat nor a TestRequest in 35 s of silence: an earlier event disturbed the session")
